@@ -176,4 +176,8 @@ def extra_checks(tier, seed):
                          note='model_obs is the run of the twin case without the awaited internal events (markers removed on both sides)')))
     else:
         out.append(('async_callbacks_awaiting_internal_events', True, detail, {}))
+    # "issued one at a time or through the queue": queued hierarchical machines whose callbacks trigger further events
+    import c05
+    name, ok, detail, rep = c05.hsm_queue_stream(tier, seed + 1000)
+    out.append(('events_through_the_queue', ok, detail, rep))
     return out
